@@ -150,7 +150,7 @@ void layer_case(unsigned count7, unsigned listLen, Stats& st) {
 
 void run_case(Tape& t, Stats& st) {
 	switch (t.below(5)) {
-	case 0: { unsigned c = unsigned(t.below(128)), l = unsigned(t.below(131)); layer_case(c, l, st); st.nt(hmix(c, l) ^ 0x1A); if (st.want_sample()) st.sample("{\"layers\":{\"count7\":" + std::to_string(c) + ",\"list\":" + std::to_string(l) + "}}"); break; }
+	case 0: { unsigned c = unsigned(t.below(128)), l = unsigned(t.below(131)); if (t.below(4) == 0) l = c + 128 * (1 + unsigned(t.below(8))); else if (t.below(8) == 0) l = unsigned(t.below(70000)); layer_case(c, l, st); st.nt(hmix(c, l) ^ 0x1A); if (st.want_sample()) st.sample("{\"layers\":{\"count7\":" + std::to_string(c) + ",\"list\":" + std::to_string(l) + "}}"); break; }
 	case 1: { size_t n = t.pick<uint32_t>({254, 255, 256, 257, 127, 128, 65534, 65535, 65536, 65537, 32767, 32768}); if (t.below(4) == 0) n = t.below(70000);
 		switch (t.below(4)) { case 0: prefix_case<uint8_t>(n, st); break; case 1: prefix_case<int8_t>(n, st); break; case 2: prefix_case<uint16_t>(n, st); break; default: prefix_case<int16_t>(n, st); break; }
 		if (st.want_sample()) st.sample("{\"prefixed_container\":" + std::to_string(n) + "}"); break; }
@@ -170,6 +170,8 @@ void run_case(Tape& t, Stats& st) {
 void run_sweep(Stats& st) {
 	// exhaustive: every layer-list length 0..130 against every 7-bit count 0..127
 	for (unsigned c = 0; c < 128; ++c) { if (!sw("layers_row", c)) continue; for (unsigned l = 0; l <= 130; ++l) layer_case(c, l, st); st.evaluations += 130; st.nt(hmix(c, 0x7777)); }
+	// list lengths that agree with the count modulo 128, 256, 65536 (a narrowed comparison would let them through)
+	for (unsigned c = 0; c < 128; ++c) { if (!sw("layers_modular", c)) continue; for (unsigned l : {c + 128, c + 256, c + 384, c + 512, c + 1024, c + 65536}) layer_case(c, l, st); st.evaluations += 5; }
 	// containers at and beyond 8/16-bit prefixes
 	for (size_t n : {size_t(127), size_t(128), size_t(255), size_t(256), size_t(32767), size_t(32768), size_t(65535), size_t(65536)}) {
 		if (!sw("prefix", n)) continue;
